@@ -211,7 +211,7 @@ class Node:
         from harness import refcodec as rc
         import asyncio
 
-        self.busy_tokens = {b"\xb1", b"\xb2"}
+        self.busy_tokens = {b"\xb1\x55\xc3\x3c", b"\xb2\x55\xc3\x3c"}
         for k, tok in enumerate(sorted(self.busy_tokens)):
             self.peer.send(self.S, rc.Msg(rc.CON, 2, 0x6001 + k, tok, ((11, b"r2"),), b"d=0.3;c=69;p=busy"))
         await asyncio.sleep(0.6)
@@ -372,7 +372,7 @@ def run_cell(cell, seed, rep, case, busy=False, mid=0x7001, dup_at=()):
         if busy:
             await node.make_busy()
         typ, code, known, mc, d, nr, rcode = cell
-        token = node.known_tokens[0] if (known and node.known_tokens) else b"\xaa\xbb\xcc"
+        token = node.known_tokens[0] if (known and node.known_tokens) else b"\xaa\xbb\xcc\xdd"
         if known and not node.known_tokens:
             box["inconc"] = "node's request never reached the peer"
         msg = node.build(cell, mid, token, rc)
@@ -441,7 +441,7 @@ def run_sequence(seq_cells, seed, rep, case, drop_misfits=False, gap=0.05):
         known_used = False
         for i, cell in enumerate(seq_cells):
             typ, code, known, mc, d, nr, rcode = cell
-            tok = bytes([0xA0 + i, 0x55])
+            tok = bytes([0xA0 + i, 0x55, 0xC3, 0x3C])  # four bytes: the node's own tokens (a counter from a random 16-bit start) are shorter, so none can coincide
             if known and 64 <= code <= 191 and not known_used and node.known_tokens:
                 tok = node.known_tokens[0]
             msg = node.build(cell, 0x7100 + i, tok, rc)
@@ -671,7 +671,7 @@ def run_sequence_fixed(seq, seq2, seed, rep, case):
         known_used = False
         for i, cell in enumerate(seq):
             typ, code, known, mc, d, nr, rcode = cell
-            tok = bytes([0xA0 + i, 0x55])
+            tok = bytes([0xA0 + i, 0x55, 0xC3, 0x3C])  # four bytes: the node's own tokens (a counter from a random 16-bit start) are shorter, so none can coincide
             if known and 64 <= code <= 191 and not known_used and node.known_tokens:
                 tok = node.known_tokens[0]
             msg = node.build(cell, 0x7100 + i, tok, rc)
